@@ -19,7 +19,7 @@ ASSUMPTIONS = [
     "Unicode text = sequences of scalar values (no lone surrogates)",
     "a watchdog firing (30 s per tree) is reported as inconclusive, never as a violation",
 ]
-REQUIRED = ["long_numeric_run_values", "placeholder_sweep_nodes", "unmodelled_sweep_trees", "vocabulary_sweep_nodes", "vocabulary_sweep_trees", "typed_table_values", "trees_validated_again_after_in_place_edits", "first_use_probes", "repeatability_checks", "trees_valid", "trees_invalid", "tree_calls", "node_calls", "config_fault_cases", "depth_ge_50", "fanout_ge_30"]
+REQUIRED = ["non_text_attribute_values", "trees_with_children_kept_in_tuples", "long_numeric_run_values", "placeholder_sweep_nodes", "unmodelled_sweep_trees", "vocabulary_sweep_nodes", "vocabulary_sweep_trees", "typed_table_values", "trees_validated_again_after_in_place_edits", "first_use_probes", "repeatability_checks", "trees_valid", "trees_invalid", "tree_calls", "node_calls", "config_fault_cases", "depth_ge_50", "fanout_ge_30"]
 EXHAUSTIVE = {"quick": False, "thorough": False}
 
 
@@ -268,7 +268,38 @@ def placeholder_and_unmodelled_sweep(ctx):
             ctx.evaluated(2)
             ctx.count("placeholder_sweep_nodes")
             emlkit.discard(t)
-    for nm in treegen.unmodelled_eml_names() + [x for x in treegen.FOREIGN_NAMES]:
+    # every declared attribute of every element holding a value that is not text (None as JSON null leaves it, a list, a number, a tuple)
+    import re as _re
+    for e in mrule.node_names():
+        for a in list(emlkit.rules_table()[mrule.node_mappings[e]][0]):
+            for v in (None, [], ["a"], 5, 2.5, ("a", "b"), {"k": "v"}, b"bytes"):
+                t = Node(e, content="x")
+                t.add_attribute(a, v)
+                call_both(ctx, mvalidate.node, f"validate.node(<{e} {a}={v!r}>)", t,
+                          lambda t=t: {"tree": snapshot.to_plain(t), "origin": "non-text attribute sweep", "node_only": True})
+                ctx.evaluated(2)
+                ctx.count("non_text_attribute_values")
+                emlkit.discard(t)
+    # the known names as other naming conventions spell them (sur_name, given-name, DataTable, data.table): unknown names like any other
+    respelt = []
+    for e in mrule.node_names():
+        words = _re.findall(r"[A-Z]?[a-z0-9]+|[A-Z]+(?![a-z])", e)
+        if len(words) >= 2:
+            low = [w.lower() for w in words]
+            respelt += ["_".join(low), "-".join(low), ".".join(low), "".join(w.capitalize() for w in low), " ".join(low)]
+    # children kept in a tuple (assigned through the public setter by an editor that stores a re-ordered sequence): a tree like any other
+    for e in ("dataset", "creator", "eml", "attributeList", "verifUnknown"):
+        t = Node(e)
+        a_ = Node("title", content="t")
+        b_ = Node("creator")
+        b_.children = (Node("individualName"),)
+        b_.children[0].parent = b_
+        t.children = (a_, b_)
+        a_.parent = b_.parent = t
+        judge_tree(ctx, t, f"children kept in tuples below <{e}>")
+        ctx.count("trees_with_children_kept_in_tuples")
+        emlkit.discard(t)
+    for nm in treegen.unmodelled_eml_names() + [x for x in treegen.FOREIGN_NAMES] + [x for x in dict.fromkeys(respelt) if x not in mrule.node_mappings]:
         for shape in range(4):
             x = Node(nm, content=None if shape % 2 else "x")
             if shape >= 2:
